@@ -38,7 +38,7 @@ TECHNIQUE = "Hypothesis op sequences through the real WebsocketLayer vs. message
 LEVEL_TEXT = ("Sampled op sequences; every relayed byte is decoded by independent peers and compared with a "
               "message-list model; sizes around the 4000-byte re-fragmentation threshold are generated on purpose.")
 LEVEL_NOTE = "trusts wsproto decoding and lib/driver.py"
-QUICK_N, THOROUGH_N = 40_000, 1_000_000
+QUICK_N, THOROUGH_N = 24_000, 1_000_000
 BUDGET_S = (150, 3600)
 
 C, S = 0, 1
@@ -63,10 +63,23 @@ def ws_frame(opcode, payload, fin=True, mask=None):
     return hdr + mask + masked
 
 
+TEXT_ATOMS = ["a", "Z", "0", " ", "\n", "\x00", "\x7f", "\u00e9", "\u00ff", "\u0080", "\u07ff", "\u0800", "\u20ac",
+              "\uffff", "\ud7ff", "\ue000", "\U00010000", "\U0001f600", "\U0010ffff", "\u4e2d", "~", "\u00a0", "\u2028", "\ufeff"]
+BIN_ATOMS = [0x00, 0x41, 0x7F, 0x80, 0xBF, 0xC3, 0xE2, 0xF0, 0xFF, 0x0A, 0x0D, 0x81, 0x88, 0x89, 0x8A, 0xA9, 0xEF, 0xBB,
+             0xFE, 0x20, 0x7E, 0xC0, 0xF8, 0x01]
+
+
+def _atoms(ids, is_text):
+    if is_text:
+        return "".join(TEXT_ATOMS[i % len(TEXT_ATOMS)] for i in ids).encode("utf-8")
+    return bytes(BIN_ATOMS[i % len(BIN_ATOMS)] for i in ids)
+
+
 def expand(spec, is_text):
-    unit, count, tail = spec
-    v = unit * count + tail
-    return v.encode("utf-8") if is_text else bytes(v)
+    """content spec [unit atom ids, target length, tail atom ids] -> bytes (valid UTF-8 when is_text)"""
+    unit, target, tail = spec
+    u = _atoms(unit, is_text)
+    return u * (target // len(u) if u else 0) + _atoms(tail, is_text)
 
 
 def cut(data, cuts):
@@ -543,67 +556,34 @@ def _abbr2(b):
 
 
 # ------------------------------------------------------------------------------------------ generator
-_chars = st.one_of(st.sampled_from(list("aZ0 \n\x00\x7f") + ["é", "ÿ", "ࠀ", "€", "￿",
-                                                               "\U00010000", "\U0001f600", "�"]),
-                   st.characters(exclude_categories=["Cs"]))
-_text_unit = st.text(_chars, min_size=1, max_size=5)
-_text_tail = st.text(_chars, max_size=4)
-_bin_unit = st.binary(min_size=1, max_size=5)
-_bin_tail = st.binary(max_size=4)
-_target = st.one_of(st.integers(0, 60), st.integers(0, 60), st.integers(0, 60), st.integers(0, 300),
+_ids = st.lists(st.integers(0, 23), min_size=1, max_size=4)
+_tail = st.lists(st.integers(0, 23), max_size=3)
+_target = st.one_of(st.integers(0, 60), st.integers(0, 60), st.integers(0, 60), st.integers(0, 60), st.integers(0, 300),
                     st.sampled_from([3996, 3998, 3999, 4000, 4001, 4002, 4004, 7998, 7999, 8000, 8001, 8003, 12001,
-                                     125, 126, 127, 65535, 65536]),
-                    st.integers(0, 20000))
-
-
-def _mkspec(t):
-    unit, target, tail, is_text = t
-    ul = len(unit.encode("utf-8")) if is_text else len(unit)
-    return [unit, target // ul, tail]
-
-
-def _spec(is_text, small=False):
-    tgt = st.integers(0, 40) if small else _target
-    if is_text:
-        return st.tuples(_text_unit, tgt, _text_tail, st.just(True)).map(_mkspec)
-    return st.tuples(_bin_unit, tgt, _bin_tail, st.just(False)).map(_mkspec)
-
-
-def _action(is_text):
-    return st.one_of(st.just(["pass"]), st.just(["pass"]), st.just(["drop"]),
-                     st.tuples(st.just("set"), _spec(is_text)).map(list),
-                     st.tuples(st.just("rot"), st.integers(1, 9)).map(list),
-                     st.tuples(st.just("app"), _spec(is_text, small=True)).map(list))
-
-
-def _typed(f):
-    return st.booleans().flatmap(f)
-
-
+                                     125, 126, 127]),
+                    st.sampled_from([4000, 8000, 65535, 65536]), st.integers(0, 20000))
+_spec = st.tuples(_ids, _target, _tail).map(list)
+_spec_small = st.tuples(_ids, st.integers(0, 12), _tail).map(list)
+_action = st.one_of(st.just(["pass"]), st.just(["pass"]), st.just(["drop"]),
+                    st.tuples(st.just("set"), _spec).map(list),
+                    st.tuples(st.just("rot"), st.integers(1, 9)).map(list),
+                    st.tuples(st.just("app"), _spec_small).map(list))
 _side = st.integers(0, 1)
+_via = st.sampled_from(["raw", "raw", "ws"])
 _ping = st.tuples(st.just("p"), _side, st.sampled_from(["ping", "pong"]), st.binary(max_size=125)).map(list)
-
-
-def _inject(small=False):
-    return _typed(lambda t: st.tuples(st.just("i"), _side, st.just(t), _spec(t, small), _action(t)).map(list))
-
-
-def _msg(small=False, nested=False):
-    gaps = st.just([]) if nested else st.lists(st.lists(_simple_nested(), max_size=2), max_size=4)
-    return _typed(lambda t: st.tuples(
-        st.just("m"), _side, st.just(t), _spec(t, small),
-        st.lists(st.integers(0, 30000), max_size=4) if not small else st.lists(st.integers(0, 50), max_size=1),
-        gaps, _action(t), st.sampled_from(["raw", "raw", "ws"]), st.lists(st.integers(0, 30000), max_size=3)).map(list))
-
-
-def _simple_nested():
-    return st.one_of(_ping, _inject(small=True), st.deferred(lambda: _msg(small=True, nested=True)))
-
-
+_inject_small = st.tuples(st.just("i"), _side, st.booleans(), _spec_small, _action).map(list)
+_inject = st.tuples(st.just("i"), _side, st.booleans(), _spec, _action).map(list)
+_msg_small = st.tuples(st.just("m"), _side, st.booleans(), _spec_small, st.lists(st.integers(0, 50), max_size=1),
+                       st.just([]), _action, _via, st.just([])).map(list)
+_simple = st.one_of(_ping, _inject_small, _msg_small)
+_msg = st.tuples(st.just("m"), _side, st.booleans(), _spec, st.lists(st.integers(0, 30000), max_size=4),
+                 st.lists(st.lists(_simple, max_size=2), max_size=3), _action, _via,
+                 st.lists(st.integers(0, 30000), max_size=3)).map(list)
+_reason = st.lists(st.integers(0, 23), max_size=12).map(lambda ids: "".join(TEXT_ATOMS[i] for i in ids))
 _codes = st.one_of(st.sampled_from([1000, 1001, 1002, 1003, 1007, 1008, 1009, 1010, 1011, 1012, 1013]),
                    st.integers(3000, 4999))
 _close = st.one_of(
-    st.tuples(st.just("c"), _side, _codes, st.text(_chars, max_size=20)).map(list),
+    st.tuples(st.just("c"), _side, _codes, _reason).map(list),
     st.tuples(st.just("c"), _side, st.none(), st.just("")).map(list),
     st.tuples(st.just("e"), _side).map(list))
 
@@ -617,5 +597,5 @@ _deflate = st.one_of(
 
 
 def strategy(ctx):
-    op = st.one_of(_msg(), _msg(), _msg(), _ping, _inject(), _close)
-    return st.fixed_dictionaries({"deflate": _deflate, "ops": st.lists(op, min_size=1, max_size=8)})
+    op = st.one_of(_msg, _msg, _msg, _ping, _inject, _close)
+    return st.fixed_dictionaries({"deflate": _deflate, "ops": st.lists(op, min_size=1, max_size=7)})
